@@ -34,7 +34,7 @@ class Volume(CellModifierInput):
         if self.in_cell_block:
             if key:
                 value = self._tree["data"][0]
-                if value.type != float or value.value < 0:
+                if value.type != float or value.value is None or value.value < 0:
                     raise ValueError(
                         f"Cell volume must be a number ≥ 0.0. {value} was given"
                     )
